@@ -286,7 +286,48 @@ def _simple_generator(fn):
     if not loops:
         return False
     inner = min(loops, key=lambda l: sum(1 for _ in ast.walk(l)))
-    return tail_yield(inner.body) and _stmt_count(fn) <= MAX_BODY
+    if _stmt_count(fn) > MAX_BODY:
+        return False
+    if tail_yield(inner.body):
+        return True
+    # `yield x` followed by more statements (typically `break`): usable when the consumer's
+    # body can be written without `continue` (see generator_expansion)
+    par = {c: p for p in _own_walk(fn) for c in ast.iter_child_nodes(p)}
+    st = par.get(ys[0])
+    return isinstance(st, ast.Expr) and st.value is ys[0]
+
+
+def _yield_is_tail(fn):
+    ys = [n for n in _own_walk(fn) if isinstance(n, ast.Yield)]
+
+    def tail_yield(stmts):
+        if not stmts:
+            return False
+        last = stmts[-1]
+        if isinstance(last, ast.Expr) and last.value is ys[0]:
+            return True
+        if isinstance(last, ast.If):
+            return tail_yield(last.body) or tail_yield(last.orelse)
+        return False
+
+    loops = [n for n in _own_walk(fn) if isinstance(n, (ast.For, ast.While)) and any(x is ys[0] for x in ast.walk(n))]
+    inner = min(loops, key=lambda l: sum(1 for _ in ast.walk(l)))
+    return tail_yield(inner.body)
+
+
+def _continues_to_ifs(stmts):
+    """`if C: ...; continue` followed by REST  ->  `if C: ... else: REST` (top level of a loop body)"""
+    out = []
+    for i, st in enumerate(stmts):
+        if isinstance(st, ast.If) and not st.orelse and st.body and isinstance(st.body[-1], ast.Continue):
+            rest = _continues_to_ifs(stmts[i + 1 :])
+            new = ast.If(test=st.test, body=st.body[:-1] or [ast.Pass()], orelse=rest)
+            out.append(ast.copy_location(new, st))
+            return out
+        if isinstance(st, ast.Continue):
+            return out or [ast.Pass()]
+        out.append(st)
+    return out
 
 
 def _eligible(d: _Def):
@@ -544,6 +585,10 @@ class _Inliner:
                 exprs[p] = a  # read-only parameter: it is the caller's variable
                 mapping.pop(p, None)
                 continue
+            elif p not in stored and isinstance(a, ast.Constant):
+                exprs[p] = a  # read-only parameter bound to a literal
+                mapping.pop(p, None)
+                continue
             kept.append((p, a))
         # an argument expression that reads a unified caller variable would see the helper's writes too early
         if unify and any(isinstance(x, ast.Name) and x.id in unify.values() for _, a in kept for x in ast.walk(a)):
@@ -633,6 +678,13 @@ class _Inliner:
             nest = [n for n in _own_walk(fn) if isinstance(n, (ast.For, ast.While))]
             if len(nest) != 1 or _body_wo_doc(fn)[-1] is not nest[0]:
                 return None
+        loop_body = loop.body
+        if not _yield_is_tail(fn):
+            # statements follow the yield: `continue` in BODY would skip them after inlining
+            loop_body = _continues_to_ifs(copy.deepcopy(loop.body))
+            probe = ast.For(target=loop.target, iter=loop.iter, body=loop_body, orelse=[])
+            if any(isinstance(n, (ast.Continue, ast.Break)) for b in loop_body for n in _walk_no_defs(b) if not _inside_inner_loop(probe, n)):
+                return None
         exprs, binds = {}, []
         plist = list(pos)
         if recv is not None and recv != "static" and plist:
@@ -653,7 +705,7 @@ class _Inliner:
                 return None
         locs = _locals_of(fn)
         mapping = {n: f"{n}__i{k}" for n in locs if n not in exprs}
-        target, user_body = loop.target, loop.body
+        target, user_body = loop.target, loop_body
         # name unification: `for i, line in gen()` with `yield line_no, line` -> the generator's
         # locals are the loop's variables
         yv = next(n for n in _own_walk(fn) if isinstance(n, ast.Yield)).value
@@ -1105,6 +1157,55 @@ def fold_new_constants(mods, known):
             if any(st is c[1] for c in consts.values()):
                 continue
             Fold().visit(st)
+    folded += _fold_new_class_constants(mods, known)
+    return folded
+
+
+def _fold_new_class_constants(mods, known):
+    """`class C: encoding = "utf-8"` ... `x.encode(self.encoding)`: a class-level constant that is
+    not on the pinned tree, defined in exactly one class, never assigned through an attribute
+    anywhere in the package, is read as its literal."""
+    folded = []
+    cands = {}  # attr name -> [(rel, class node, assign node, value)]
+    stored_attrs = set()
+    for rel, tree in mods.items():
+        for n in ast.walk(tree):
+            if isinstance(n, ast.Attribute) and isinstance(n.ctx, (ast.Store, ast.Del)):
+                stored_attrs.add(n.attr)
+            elif isinstance(n, ast.Call) and isinstance(n.func, ast.Name) and n.func.id in ("setattr", "delattr"):
+                stored_attrs.add("*")
+        for cls in (x for x in ast.walk(tree) if isinstance(x, ast.ClassDef)):
+            for st in cls.body:
+                tgt = val = None
+                if isinstance(st, ast.Assign) and len(st.targets) == 1 and isinstance(st.targets[0], ast.Name):
+                    tgt, val = st.targets[0].id, st.value
+                elif isinstance(st, ast.AnnAssign) and isinstance(st.target, ast.Name) and st.value is not None:
+                    tgt, val = st.target.id, st.value
+                if tgt:
+                    cands.setdefault(tgt, []).append((rel, cls, st, val))
+    # reflective writes with computed names could hit any attribute: only names that no
+    # setattr could produce are safe - keep it simple and require that the package has no
+    # class attribute / instance attribute of that name anywhere else
+    for name, defs in cands.items():
+        if len(defs) != 1 or name in stored_attrs:
+            continue
+        rel, cls, st, val = defs[0]
+        if any(f"{rel}:{q}" in known for q in (f"{cls.name}.{name}",)):
+            continue
+        cv = _const_value(val)
+        if cv is None or not isinstance(cv, ast.Constant):
+            continue
+        # instance fields of the same name set in methods (self.name = ..) were excluded by stored_attrs
+        for rel2, tree2 in mods.items():
+            class F(ast.NodeTransformer):
+                def visit_Attribute(self, n):
+                    self.generic_visit(n)
+                    if n.attr == name and isinstance(n.ctx, ast.Load) and isinstance(n.value, ast.Name) and (n.value.id in ("self", "cls") or n.value.id == cls.name):
+                        folded.append((f"{rel}:{cls.name}.{name}", getattr(n, "lineno", 0)))
+                        return ast.copy_location(copy.deepcopy(cv), n)
+                    return n
+
+            F().visit(tree2)
     return folded
 
 
@@ -1188,6 +1289,210 @@ def unroll_reflective_loops(mods):
     return done
 
 
+def unroll_new_table_loops(mods, kf):
+    """`for tag, pat in (("import", P1), ("vis", P2)): if pat.match(x): return tag, None` - a
+    chain of tests rewritten as a loop over a literal table.  Such a loop that is not on the
+    pinned tree (its head is not among the statement hashes of the function it sits in) is
+    unrolled, so the rules see the chain again.  Only loops whose table is a display of
+    constants / names / attributes (or tuples of those), at most 8 rows, without break /
+    continue / else, whose variables are not re-bound in the body."""
+    import hashlib
+
+    from . import renames
+
+    done = []
+    if not isinstance(kf, dict):
+        return done
+
+    def simple(e):
+        return isinstance(e, (ast.Constant, ast.Name, ast.Attribute)) and not isinstance(getattr(e, "ctx", None), ast.Store)
+
+    class SubstMany(ast.NodeTransformer):
+        def __init__(self, env):
+            self.env = env
+
+        def visit_Name(self, n):
+            if n.id in self.env and isinstance(n.ctx, ast.Load):
+                return ast.copy_location(copy.deepcopy(self.env[n.id]), n)
+            return n
+
+    def head_hash(fn, st):
+        c = copy.copy(st)
+        for fld in ("body", "orelse", "finalbody", "handlers"):
+            if hasattr(c, fld):
+                setattr(c, fld, [])
+        c = renames._Norm(fn.name).visit(copy.deepcopy(c))
+        return hashlib.md5(ast.dump(c).encode()).hexdigest()[:10]
+
+    def rows_of(st):
+        if not (isinstance(st.iter, (ast.Tuple, ast.List)) and 0 < len(st.iter.elts) <= 8) or st.orelse:
+            return None
+        if isinstance(st.target, ast.Name):
+            if all(simple(e) for e in st.iter.elts):
+                return [{st.target.id: e} for e in st.iter.elts]
+            return None
+        if isinstance(st.target, (ast.Tuple, ast.List)) and all(isinstance(t, ast.Name) for t in st.target.elts):
+            names = [t.id for t in st.target.elts]
+            rows = []
+            for e in st.iter.elts:
+                if not (isinstance(e, (ast.Tuple, ast.List)) and len(e.elts) == len(names) and all(simple(x) for x in e.elts)):
+                    return None
+                rows.append(dict(zip(names, e.elts)))
+            return rows
+        return None
+
+    def do_block(stmts, fn, known_heads, rel):
+        out = []
+        for st in stmts:
+            for field in ("body", "orelse", "finalbody"):
+                b = getattr(st, field, None)
+                if isinstance(b, list) and b and isinstance(b[0], ast.stmt) and not isinstance(st, (ast.FunctionDef, ast.AsyncFunctionDef, ast.ClassDef)):
+                    setattr(st, field, do_block(b, fn, known_heads, rel))
+            if isinstance(st, ast.Try):
+                for h in st.handlers:
+                    h.body = do_block(h.body, fn, known_heads, rel)
+            if isinstance(st, ast.For):
+                rows = rows_of(st)
+                if rows is not None and head_hash(fn, st) not in known_heads:
+                    vars_ = set(rows[0])
+                    body_nodes = [n for b in st.body for n in ast.walk(b)]
+                    if not any(isinstance(n, (ast.Break, ast.Continue, ast.FunctionDef, ast.Lambda)) for n in body_nodes) and not any(isinstance(n, ast.Name) and n.id in vars_ and isinstance(n.ctx, (ast.Store, ast.Del)) for n in body_nodes):
+                        for env in rows:
+                            for b in st.body:
+                                out.append(ast.fix_missing_locations(SubstMany(env).visit(copy.deepcopy(b))))
+                        done.append((rel, getattr(st, "lineno", 0), len(rows)))
+                        continue
+            out.append(st)
+        return out
+
+    for rel, tree in mods.items():
+        for q, fn, holder, cls, parent in renames.collect_functions(tree, rel):
+            known_heads = set((kf.get(q) or {}).get("fp", ())) if q in kf else None
+            if known_heads is None:
+                continue  # a function that is not on the pinned tree is inlined or matched elsewhere
+            fn.body = do_block(fn.body, fn, known_heads, rel)
+    return done
+
+
+def expand_any_all(mods, known):
+    """`return not any(map(pred, gen(xs)))` / `ok = all(pred(x) for x in xs)`: when the predicate
+    or the iterable is a helper that is not on the pinned tree, the reduction is written out
+    as the loop it abbreviates, so the helpers can be inlined and the rules see the tests again:
+
+        _any1 = False
+        for x in gen(xs):
+            if pred(x):
+                _any1 = True
+                break
+        return not _any1
+    """
+    done = []
+    counter = [0]
+
+    def new_call(e, rel):
+        for c in ast.walk(e):
+            if isinstance(c, ast.Call):
+                nm = c.func.id if isinstance(c.func, ast.Name) else (c.func.attr if isinstance(c.func, ast.Attribute) else None)
+                if nm and nm in new_names:
+                    return True
+        return False
+
+    def as_gen(call):
+        """(elt, target, iter, ifs) of any(...)/all(...) argument"""
+        if len(call.args) != 1 or call.keywords:
+            return None
+        a = call.args[0]
+        if isinstance(a, (ast.GeneratorExp, ast.ListComp)) and len(a.generators) == 1 and not a.generators[0].is_async:
+            g = a.generators[0]
+            return a.elt, g.target, g.iter, list(g.ifs)
+        if isinstance(a, ast.Call) and isinstance(a.func, ast.Name) and a.func.id == "map" and len(a.args) == 2 and not a.keywords and isinstance(a.args[0], (ast.Name, ast.Attribute)):
+            counter[0] += 1
+            v = f"_it{counter[0]}"
+            elt = ast.Call(func=copy.deepcopy(a.args[0]), args=[ast.Name(id=v, ctx=ast.Load())], keywords=[])
+            return elt, ast.Name(id=v, ctx=ast.Store()), a.args[1], []
+        return None
+
+    def rewrite(st, rel):
+        """list of statements replacing st, or None"""
+        if not isinstance(st, (ast.Return, ast.Assign)) or getattr(st, "value", None) is None:
+            return None
+        hits = [c for c in ast.walk(st.value) if isinstance(c, ast.Call) and isinstance(c.func, ast.Name) and c.func.id in ("any", "all")]
+        if len(hits) != 1:
+            return None
+        call = hits[0]
+        g = as_gen(call)
+        if g is None:
+            return None
+        elt, target, it, ifs = g
+        if not (new_call(elt, rel) or new_call(it, rel)):
+            return None
+        # the reduction must be evaluated unconditionally where it stands (not under and/or/ifexp/lambda)
+        par = {c: p for p in ast.walk(st.value) for c in ast.iter_child_nodes(p)}
+        p_ = par.get(call)
+        while p_ is not None:
+            if isinstance(p_, (ast.BoolOp, ast.IfExp, ast.Lambda, ast.GeneratorExp, ast.ListComp, ast.SetComp, ast.DictComp)):
+                return None
+            p_ = par.get(p_)
+        counter[0] += 1
+        is_any = call.func.id == "any"
+        flag = f"_{'any' if is_any else 'all'}{counter[0]}"
+        ln = getattr(st, "lineno", 0)
+        test = elt if is_any else ast.UnaryOp(op=ast.Not(), operand=elt)
+        inner = [ast.If(test=test, body=[ast.Assign(targets=[ast.Name(id=flag, ctx=ast.Store())], value=ast.Constant(value=is_any), lineno=ln), ast.Break()], orelse=[])]
+        for cond in reversed(ifs):
+            inner = [ast.If(test=cond, body=inner, orelse=[])]
+        loop = ast.For(target=target, iter=it, body=inner, orelse=[], lineno=ln)
+        init = ast.Assign(targets=[ast.Name(id=flag, ctx=ast.Store())], value=ast.Constant(value=not is_any), lineno=ln)
+
+        class Sub(ast.NodeTransformer):
+            def visit_Call(self, n):
+                if n is call:
+                    return ast.copy_location(ast.Name(id=flag, ctx=ast.Load()), n)
+                return self.generic_visit(n)
+
+        st2 = copy.copy(st)
+        st2.value = Sub().visit(st.value)
+        out = [init, loop, st2]
+        for o in out:
+            ast.copy_location(o, st)
+            ast.fix_missing_locations(o)
+        return out
+
+    def do_block(stmts, rel):
+        out = []
+        for st in stmts:
+            for field in ("body", "orelse", "finalbody"):
+                b = getattr(st, field, None)
+                if isinstance(b, list) and b and isinstance(b[0], ast.stmt) and not isinstance(st, ast.ClassDef):
+                    setattr(st, field, do_block(b, rel))
+            if isinstance(st, ast.Try):
+                for h in st.handlers:
+                    h.body = do_block(h.body, rel)
+            r = rewrite(st, rel)
+            if r is not None:
+                out.extend(r)
+                done.append((rel, getattr(st, "lineno", 0)))
+            else:
+                out.append(st)
+        return out
+
+    # names of functions that are not on the pinned tree
+    from . import renames
+
+    new_names = set()
+    for rel, tree in mods.items():
+        for q, fn, holder, cls, parent in renames.collect_functions(tree, rel):
+            if q not in known:
+                new_names.add(fn.name)
+    if not new_names:
+        return done
+    for rel, tree in mods.items():
+        for n in ast.walk(tree):
+            if isinstance(n, (ast.FunctionDef, ast.AsyncFunctionDef)):
+                n.body = do_block(n.body, rel)
+    return done
+
+
 def expand_match_spans(mods):
     """f(a, *m.span(k)) -> f(a, m.start(k), m.end(k))  (re.Match.span(k) is exactly that pair)"""
     n_done = 0
@@ -1251,6 +1556,10 @@ def normalise(mods, known=None):
     expand_match_spans(mods)
     for rel, ln, n in unroll_reflective_loops(mods):
         folded.append((f"loop over {n} option names in {rel}", ln))
+    for rel, ln, n in unroll_new_table_loops(mods, kf):
+        folded.append((f"new loop over a literal table of {n} rows in {rel} unrolled", ln))
+    for rel, ln in expand_any_all(mods, known):
+        folded.append((f"any()/all() over a new helper in {rel} written out as a loop", ln))
     rep, dropped = _Inliner(mods, known, protected).run()
     if protected and isinstance(kf, dict):
         # a renamed function whose body had been split into new helpers matches now
